@@ -521,6 +521,70 @@ impl DynamicTable {
     }
 }
 
+/// Read-only copy of a `DynamicTable`'s state (verification hook; maps sorted by key).
+#[cfg(hyperium_h3_verif)]
+#[derive(Debug, Clone, PartialEq)]
+pub struct VerifTableState {
+    pub fields: Vec<(Vec<u8>, Vec<u8>)>,
+    pub curr_size: usize,
+    pub max_size: usize,
+    pub inserted: usize,
+    pub dropped: usize,
+    pub delta: usize,
+    pub field_map: Vec<((Vec<u8>, Vec<u8>), usize)>,
+    pub name_map: Vec<(Vec<u8>, usize)>,
+    pub track_map: Vec<(usize, usize)>,
+    pub track_blocks: Vec<(u64, Vec<Vec<(usize, usize)>>)>,
+    pub largest_known_received: usize,
+    pub blocked_max: usize,
+    pub blocked_count: usize,
+    pub blocked_streams: Vec<(usize, usize)>,
+}
+
+#[cfg(hyperium_h3_verif)]
+impl DynamicTable {
+    pub fn verif_state(&self) -> VerifTableState {
+        let (inserted, dropped, delta) = self.vas.verif_counters();
+        let pair = |f: &HeaderField| (f.name.to_vec(), f.value.to_vec());
+        let mut field_map: Vec<_> = self.field_map.iter().map(|(k, v)| (pair(k), *v)).collect();
+        field_map.sort();
+        let mut name_map: Vec<_> = self.name_map.iter().map(|(k, v)| (k.to_vec(), *v)).collect();
+        name_map.sort();
+        let mut track_blocks: Vec<_> = self
+            .track_blocks
+            .iter()
+            .map(|(k, q)| {
+                let q = q
+                    .iter()
+                    .map(|m| {
+                        let mut m: Vec<_> = m.iter().map(|(a, c)| (*a, *c)).collect();
+                        m.sort();
+                        m
+                    })
+                    .collect::<Vec<_>>();
+                (*k, q)
+            })
+            .collect();
+        track_blocks.sort();
+        VerifTableState {
+            fields: self.fields.iter().map(pair).collect(),
+            curr_size: self.curr_size,
+            max_size: self.max_size,
+            inserted,
+            dropped,
+            delta,
+            field_map,
+            name_map,
+            track_map: self.track_map.iter().map(|(a, c)| (*a, *c)).collect(),
+            track_blocks,
+            largest_known_received: self.largest_known_received,
+            blocked_max: self.blocked_max,
+            blocked_count: self.blocked_count,
+            blocked_streams: self.blocked_streams.iter().map(|(a, c)| (*a, *c)).collect(),
+        }
+    }
+}
+
 impl From<vas::Error> for Error {
     fn from(e: vas::Error) -> Self {
         match e {
